@@ -131,6 +131,10 @@ Inductive fstep_shape (fs : fstate) : fevent -> fstate -> Prop :=
 | fs_srx n :
     f_aborted fs = false -> ph (fb fs) n = MF2 ->
     fstep_shape fs (SRX n) (mkF (set_ph (fb fs) n Dead) (f_cancelled fs) false true (n :: f_rd fs))
+| fs_fsx n :
+    f_aborted fs = false -> (ph (fb fs) n = NeedFetch \/ ph (fb fs) n = Waiting) ->
+    on_virtual c ext (ExB n) = false ->
+    fstep_shape fs (FSX n) (with_base fs (set_ph (fb fs) n Dead))
 | fs_pux n ref stored sk rd :
     f_aborted fs = false -> ref = root_refpush c n -> ph (fb fs) n = Pushing sk rd ->
     fstep_shape fs (PuX n ref stored)
@@ -162,7 +166,7 @@ Lemma fstep_inv fs fe fs' : fstep g c ext fs fe = Some fs' ->
 Proof.
   unfold fstep. intro H.
   destruct (returned (fb fs)) eqn:Hr; [discriminate|]. split; [reflexivity|].
-  destruct fe as [e|n|n|n|n ref stored|n set|n stored| | |].
+  destruct fe as [e|n|n|n|n|n ref stored|n set|n stored| | |].
   - destruct e;
       try (destruct (f_aborted fs) eqn:Hab; [discriminate|];
            cbv iota beta in H;
@@ -196,6 +200,10 @@ Proof.
     destruct (ph (fb fs) n) eqn:Hp; try discriminate.
     injection H as <-. now apply fs_srx.
   - destruct (f_aborted fs) eqn:Hab; [discriminate|].
+    destruct (ph (fb fs) n) eqn:Hp; try discriminate;
+    (destruct (on_virtual c ext (ExB n)) eqn:Hv; [discriminate|]);
+    injection H as <-; apply fs_fsx; auto.
+  - destruct (f_aborted fs) eqn:Hab; [discriminate|].
     destruct (negb (eqb ref (root_refpush c n))) eqn:Hre; [discriminate|].
     destruct (ph (fb fs) n) eqn:Hp; try discriminate.
     injection H as <-. eapply fs_pux; eauto.
@@ -228,6 +236,7 @@ Proof.
   - apply inv_kill; auto; congruence.
   - apply inv_kill; auto; destruct H0 as [H0|[[sk H0]|H0]]; congruence.
   - (* SRX *) apply inv_kill; auto; congruence.
+  - (* FSX *) apply inv_kill; auto; destruct H0; congruence.
   - rewrite <- Hr. apply inv_fault; auto; try congruence.
     + destruct (stored && negb (has g (dst (fb fs)) n)) eqn:E; [|now left].
       right. apply andb_true_iff in E as [_ E]. apply negb_true_iff in E.
@@ -464,6 +473,8 @@ Proof.
     apply (i_bound _ _ _ _ I). destruct H0 as [H0|[[sk H0]|H0]]; congruence.
   - rewrite (any_dead_intro (set_ph (fb fs) n Dead) n); [apply orb_true_r | | cbn [set_ph ph]; apply upd_same].
     apply (i_bound _ _ _ _ I). congruence.
+  - rewrite (any_dead_intro (set_ph (fb fs) n Dead) n); [apply orb_true_r | | cbn [set_ph ph]; apply upd_same].
+    apply (i_bound _ _ _ _ I). destruct H0; congruence.
   - match goal with |- context [any_dead g ?s] =>
       rewrite (any_dead_intro s n); [apply orb_true_r | | cbn [ph]; apply upd_same] end.
     apply (i_bound _ _ _ _ I). congruence.
